@@ -141,11 +141,48 @@ def build_harness(parallel=True, features=()):
     return _built[key]
 
 
+def repo_path():
+    """Where the harness takes the library from (path dependency of its Cargo.toml)."""
+    try:
+        m = re.search(r'shred\s*=\s*\{\s*path\s*=\s*"([^"]+)"', open(os.path.join(HARNESS, "Cargo.toml")).read())
+        return m.group(1).rstrip("/") if m else "/repo"
+    except OSError:
+        return "/repo"
+
+
+LIB_ONLY_CRATES = ("atomic_refcell", "arrayvec", "smallvec", "hashbrown", "ahash", "tynm")
+
+
+def died_in_code_under_test(r):
+    """Why a harness process ended abnormally, if the code under test is to blame; None if the harness itself
+    (or the tooling) failed.  Decided conservatively: a fatal signal, or an escaped panic whose location is a
+    source file of the library."""
+    if r.returncode < 0:
+        return "killed by signal %d" % (-r.returncode)
+    if r.returncode == 101:
+        for line in reversed(r.stdout.splitlines()):
+            if line.startswith("HARNESS-PANIC "):
+                loc = line[len("HARNESS-PANIC "):]
+                # (the library's own sources, or a crate that only the library uses: its cells and small vectors)
+                if loc.startswith(repo_path() + "/") or any(("/" + c + "-") in loc.split(" ")[0] for c in LIB_ONLY_CRATES):
+                    return "panic escaped at %s" % loc[:300]
+                return None
+    return None
+
+
 def run_bin(ctx, name, args, parallel=True, timeout=3600, want_json=True, features=()):
     d = build_harness(parallel, features)
     r = subprocess.run([os.path.join(d, name)] + [str(a) for a in args], stdout=subprocess.PIPE,
                        stderr=subprocess.PIPE, text=True, timeout=timeout)
     if r.returncode != 0:
+        died = died_in_code_under_test(r)
+        if died:
+            # the process that drives the real code was killed by it: a signal (memory corruption, abort in a
+            # destructor) or a panic raised INSIDE the library at a place where no call of it may panic
+            rp = ctx.save_replay("crash-%s-seed%d.txt" % (name, ctx.seed),
+                                 "command: %s %s\nexit: %d\n%s\nstdout (tail):\n%s\nstderr (tail):\n%s\n"
+                                 % (name, " ".join(str(a) for a in args), r.returncode, died, r.stdout[-3000:], r.stderr[-3000:]))
+            raise Violation(ctx.prop, "the harness process driving the real code died: %s" % died, rp)
         raise ToolError("%s %s exited %d:\n%s\n%s" % (name, args, r.returncode, r.stdout[-2000:], r.stderr[-4000:]))
     if not want_json:
         return r.stdout
